@@ -301,11 +301,22 @@ def c01_plans(tier):
     return [Plan("MC_Witness(hist,0..4,2 forks)", H(tier), nwalks=3000, depth=40, stores=T_ST, embeds=T_EMB, want=want_accept)]
 
 
+def c01_concurrent(work, rep, tier, seed):
+    """"No sequence of update requests, however chosen" also when they overlap: every TLC-listed interleaving of conflicting first use, forks and
+    growth from the same old size, on both stores (and the in-memory interleavings forced on SQLite); Trace_Hist requires everything handed out as
+    accepted, and what is held at the end, to lie on one append-only history."""
+    import opsfam
+    evs = opsfam.concurrent_histories(work, rep, tier, seed, "C01")
+    rep.cov["evaluations"] += sum(1 for e in evs if e.get("e") == "ret")
+    rep.cov["accepts_under_concurrency"] = sum(1 for e in evs if e.get("e") == "ret" and e.get("v") == "Accept")
+
+
 CHECKS["C01"] = make_check("C01", c01_plans,
     "every transition of the bounded adversarial model (forked and junk roots, every old size, empty/genuine/replayed/mutated proofs) executed from its "
     "pre-state, plus random walks over the emitted transition graph; judged by AppendOnly and ChainOK on the observed stored values and cosigned outputs; "
     "distinct = distinct (pre-state, well-signed request, verdict)", good_known,
-    pre=lambda work, rep, tier: (merkle_link(work, rep, tier), tlaps_chain(work, rep) if tier != "quick" else None))
+    pre=lambda work, rep, tier: (merkle_link(work, rep, tier), tlaps_chain(work, rep) if tier != "quick" else None),
+    post_all=lambda work, rep, tier, seed: c01_concurrent(work, rep, tier, seed))
 
 # ----------------------------------------------------------------------------- C09
 
@@ -449,11 +460,22 @@ def c08_plans(tier):
                  embeds=("id", "huge"), edge_cap=400)]
 
 
+def c08_after_failures(work, rep, tier, seed):
+    """"Whatever has been submitted before, accepted or refused": also requests that were refused because the STORAGE failed (every TLC-listed
+    placement of a failure over the update histories, at interface and driver level) or whose caller went away; honest probes follow each."""
+    import checks_ops
+    evs, _ = checks_ops.fault_pipeline(work, rep, "quick", seed, "C08")
+    probes = [e for e in evs if e.get("e") == "update" and not e.get("fired")]
+    rep.cov["evaluations"] += len(probes)
+    rep.cov["honest_probes_after_storage_failures"] = len(probes)
+
+
 CHECKS["C08"] = make_check("C08", c08_plans,
     "shortest path to EVERY reachable state of the bounded model (states reached through refused forgeries, padded / extended notes, a first checkpoint of size 0) and random walks, "
     "each followed by the honest request (old = stored size, genuine/empty proof, one signature line) for every size >= stored; plus a numeric sweep of concrete size pairs (all m <= n <= 40 "
     "(thorough 64), stored sizes m over 0..2^16 (thorough: every m) with n in {m, m+1, next power of two, 2^16}, random pairs up to 2^40, 2^62, 2^63), each with its own embedding; judged by HonestProgress; "
-    "distinct = distinct (pre-state, honest probe)", lambda e: e.get("e") == "update" and e.get("req", {}).get("auth") == "good" and e.get("req", {}).get("extra") == 0)
+    "distinct = distinct (pre-state, honest probe)", lambda e: e.get("e") == "update" and e.get("req", {}).get("auth") == "good" and e.get("req", {}).get("extra") == 0,
+    post_all=lambda work, rep, tier, seed: c08_after_failures(work, rep, tier, seed))
 
 # ----------------------------------------------------------------------------- C12 (isolation half; identity half is in checks_omni)
 # ----------------------------------------------------------------------------- C16
